@@ -349,6 +349,10 @@ def get_model_parser(top_rule, comments_model, **kwargs):
             # Contained elements are tuples: (instance, metaattr, cross-ref)
             self._crossrefs = []
 
+            # True while this parser has the attr methods of the user
+            # classes replaced (see _replace_user_attr_methods)
+            self._user_attr_methods_replaced = False
+
         def clone(self):
             """
             Responsibility: create a clone in order to parse a separate file.
@@ -518,12 +522,20 @@ def get_model_parser(top_rule, comments_model, **kwargs):
                     self._replace_user_attr_methods_for_class(user_class)
                 else:
                     user_class._tx_instrumented += 1
+            self._user_attr_methods_replaced = True
 
         def _restore_user_attr_methods(self):
             """
             Restore original get/set/del(attr) methods on user
-            classes.
+            classes. Does nothing if this parser has not replaced them
+            (e.g. the input had a syntax error) or has restored them already:
+            the replacement is counted per class and another parser (the one
+            of an importing model or of a model load in progress) may still
+            rely on it.
             """
+            if not self._user_attr_methods_replaced:
+                return
+            self._user_attr_methods_replaced = False
             for user_class in self.metamodel.user_classes.values():
                 if hasattr(user_class, "_tx_instrumented"):
                     user_class._tx_instrumented -= 1
